@@ -385,7 +385,7 @@ theorem Bumped.vrep {cfg : Cfg} {Ok : VB → Prop} {c : Nat} {m m' : Mem α} {xs
 theorem Bumped.frameG {m m' : Mem α} (h : Bumped m m') (c : Nat) (r : Region) : FrameG c r m m' :=
   ⟨h.cat, h.hr, by rw [h.ws], fun _ _ => by rw [h.ws], by rw [h.nid]; omega,
    fun hf id hid => by rw [h.buf] at hid; rw [h.nid]; exact Nat.lt_succ_of_lt (hf id hid),
-   fun r' _ _ => by rw [h.buf]⟩
+   fun r' _ _ => by rw [h.buf], fun id _ _ => h.cnt id⟩
 
 theorem Bumped.frameL {m m' : Mem α} (h : Bumped m m') (cfg : Cfg) (c : Nat) (r : Region) : FrameL cfg c r m m' :=
   ⟨h.frameG c r, (NoLeak.refl cfg c m).step (fun id hid => by rw [h.buf] at hid; exact hid) (OwnsBlk.congr (by rw [h.ws]))⟩
@@ -407,6 +407,7 @@ theorem GrowPost.finish {cfg : Cfg} {Ok : VB → Prop} {c : Nat} {m m2 : Mem α}
     (hVsome : ∀ id, (V (.blk id)).isSome → (m.buf (.blk id)).isSome)
     (hVold : ∀ id, regionOf cfg c w = .blk id → 0 < cfg.ops.capacity w → V (.blk id) = none)
     (hcnt : m2.cnt m.nextId = some r)
+    (hcntO : ∀ j, Region.blk j ≠ regionOf cfg c w → j < m.nextId → m2.cnt j = m.cnt j)
     (hcat : m2.cat = m.cat) (hws2 : m2.ws = m.ws) (hhr : m2.hasRealloc = m.hasRealloc) (hnid : m2.nextId = m.nextId + 1)
     (hok : Ok w') (hcap : cfg.ops.capacity w' = r) (hsz : cfg.ops.size w' = xs.length) (hbeg : cfg.ops.begin w' = .blk m.nextId)
     (hle : xs.length ≤ r) (hneed : needed ≤ r) (hpos : 0 < r)
@@ -422,7 +423,8 @@ theorem GrowPost.finish {cfg : Cfg} {Ok : VB → Prop} {c : Nat} {m m2 : Mem α}
     rw [hreg] at hid; injection hid with hid; subst hid
     rw [withWs_cnt, hcap]; exact hcnt
   · intro _ hfl; rw [withWs_buf]; exact hinl hfl
-  · refine ⟨⟨hcat, hhr, by simp [hws2], fun c' hc' => by simp [hws2, List.getElem?_set_ne (Ne.symm hc')], by rw [hnid]; omega, ?_, ?_⟩, ?_⟩
+  · refine ⟨⟨hcat, hhr, by simp [hws2], fun c' hc' => by simp [hws2, List.getElem?_set_ne (Ne.symm hc')], by rw [hnid]; omega, ?_, ?_,
+      fun j hne hlt => (withWs_cnt _ _ _).trans (hcntO j hne hlt)⟩, ?_⟩
     · intro hf id hid
       rw [withWs_buf, hbuf] at hid
       show id < m2.nextId
@@ -564,6 +566,7 @@ theorem std_grow_post (cfg : Cfg) (hfl : cfg.flavour = .std) (L : StdLaws cfg.op
         · refine Post.mono (setW_post m2 c _) ?_
           rintro res m3 ⟨hr, rfl⟩; subst hr
           refine GrowPost.finish (View.unset m0.buf (.blk id)) hv.ws (by rw [hmv.buf, hbm.buf]) ?_ ?_ ?_ hmv.cnt
+            (fun j hne hlt => (hmv.cntOther j (fun e => hne (by rw [hreg, e])) (Nat.ne_of_lt hlt)).trans (hbm.cnt j))
             (hmv.keep.cat.trans hbm.cat) (hmv.keep.ws.trans hbm.ws) (hmv.keep.hr.trans hbm.hr) (hmv.keep.nid.trans hbm.nid)
             ⟨by show xs.length ≤ r; omega, hrk, Or.inl ⟨_, rfl, hP, by show 0 < r; omega⟩⟩
             (by rw [L.cap_eq]) (by rw [L.size_eq]) (by rw [L.begin_eq]) (by omega) hnr (by omega) (fun h => by rw [hfl] at h; cases h)
@@ -592,6 +595,7 @@ theorem std_grow_post (cfg : Cfg) (hfl : cfg.flavour = .std) (L : StdLaws cfg.op
           rintro res m3 ⟨hr, rfl⟩; subst hr
           refine GrowPost.finish m0.buf hv.ws (by rw [hal.buf, hbm.buf]; simp [lives]) (fun _ _ => rfl) (fun _ h => h)
             (fun _ _ hp => by rw [L.cap_eq] at hp; omega) hal.cnt
+            (fun j _ hlt => (hal.cntOther j (Nat.ne_of_lt hlt)).trans (hbm.cnt j))
             (hal.keep.cat.trans hbm.cat) (hal.keep.ws.trans hbm.ws) (hal.keep.hr.trans hbm.hr) (hal.keep.nid.trans hbm.nid)
             ⟨by show 0 ≤ r; omega, hrk, Or.inl ⟨_, rfl, hP, by show 0 < r; omega⟩⟩
             (by rw [L.cap_eq]) (by rw [L.size_eq]) (by rw [L.begin_eq]) (by simp) hnr (by omega) (fun h => by rw [hfl] at h; cases h)
@@ -712,6 +716,7 @@ theorem grow_commit {cfg : Cfg} {Ok : VB → Prop} {c : Nat} {m0 m1 : Mem α} {x
     (V : View α) (effs : M α Unit) (hv : VRepW cfg Ok c m0 xs w) (hbm : Bumped m0 m1)
     (heff : Post effs m1 (fun res m3 =>
       (res = .ok () ∧ m3.buf = View.set V (.blk m0.nextId) (lives xs ++ raws (r - xs.length)) ∧ m3.cnt m0.nextId = some r
+          ∧ (∀ j, Region.blk j ≠ regionOf cfg c w → j < m0.nextId → m3.cnt j = m0.cnt j)
           ∧ KeepA m1 m3 ∧ (cfg.flavour = .small → m3.buf (.inl c) = some (raws cfg.n)))
         ∨ (res = .error (.exc .badAlloc) ∧ Same m1 m3)))
     (hV : ∀ r', r' ≠ regionOf cfg c w → V r' = m0.buf r')
@@ -722,10 +727,10 @@ theorem grow_commit {cfg : Cfg} {Ok : VB → Prop} {c : Nat} {m0 m1 : Mem α} {x
     Post (do effs; setW c w') m1 (GrowPost cfg Ok c m0 xs w needed) := by
   refine Post.bind heff ?_ ?_
   · rintro _ m3 hq
-    rcases hq with ⟨_, hb3, hc3, hk3, hi3⟩ | ⟨he, _⟩
+    rcases hq with ⟨_, hb3, hc3, hco3, hk3, hi3⟩ | ⟨he, _⟩
     · refine Post.mono (setW_post m3 c _) ?_
       rintro res m4 ⟨hr, rfl⟩; subst hr
-      exact GrowPost.finish V hv.ws hb3 hV hVsome hVold hc3 (hk3.cat.trans hbm.cat) (hk3.ws.trans hbm.ws) (hk3.hr.trans hbm.hr)
+      exact GrowPost.finish V hv.ws hb3 hV hVsome hVold hc3 hco3 (hk3.cat.trans hbm.cat) (hk3.ws.trans hbm.ws) (hk3.hr.trans hbm.hr)
         (hk3.nid.trans hbm.nid) hok hcap hsz hbeg hle hneed hpos hi3
     · cases he
   · rintro e m3 hq
@@ -789,7 +794,8 @@ theorem small_grow_post (cfg : Cfg) (hfl : cfg.flavour = .small) (L : SmallLaws 
               rw [hb3, View.set_other _ _ _ _ hner, View.set_same]
             refine Post.bind (setDyn_post m3 c c _ h3 (Or.inl (fun s hs => List.eq_of_mem_replicate hs))) ?_ (by okerr)
             rintro _ m4 ⟨_, rfl⟩
-            refine Post.pure (Or.inl ⟨rfl, ?_, ?_, ha.keep.trans hk3.toA, fun _ => h3⟩)
+            refine Post.pure (Or.inl ⟨rfl, ?_, ?_,
+              fun j _ hlt => by rw [hk3.cnt, ha.cntOther j (Nat.ne_of_lt hlt), hbm.cnt], ha.keep.trans hk3.toA, fun _ => h3⟩)
             · rw [hb3, ha.buf, hbm.buf]
               funext r'
               by_cases h1 : r' = .blk m0.nextId
@@ -832,7 +838,9 @@ theorem small_grow_post (cfg : Cfg) (hfl : cfg.flavour = .small) (L : SmallLaws 
                 exact hinl0
               refine Post.bind (setDyn_post m2 c c _ h2 (Or.inl (fun s hs => List.eq_of_mem_replicate hs))) ?_ (by okerr)
               rintro _ m3 ⟨_, rfl⟩
-              exact Post.pure (Or.inl ⟨rfl, by rw [hmv.buf, hbm.buf], hmv.cnt, hmv.keep, fun _ => h2⟩)
+              exact Post.pure (Or.inl ⟨rfl, by rw [hmv.buf, hbm.buf], hmv.cnt,
+                fun j hne hlt => (hmv.cntOther j (fun e => hne (by rw [hreg, e])) (Nat.ne_of_lt hlt)).trans (hbm.cnt j),
+                hmv.keep, fun _ => h2⟩)
             · cases he
           · rintro e m2 hq
             rcases hq with ⟨he, _⟩ | ⟨he, hs2⟩
@@ -861,7 +869,8 @@ theorem small_grow_post (cfg : Cfg) (hfl : cfg.flavour = .small) (L : SmallLaws 
               exact hinl0
             refine Post.bind (setDyn_post m2 c c _ h2 (Or.inl (fun s hs => List.eq_of_mem_replicate hs))) ?_ (by okerr)
             rintro _ m3 ⟨_, rfl⟩
-            exact Post.pure (Or.inl ⟨rfl, by rw [hal.buf, hbm.buf]; simp [lives], hal.cnt, hal.keep, fun _ => h2⟩)
+            exact Post.pure (Or.inl ⟨rfl, by rw [hal.buf, hbm.buf]; simp [lives], hal.cnt,
+              fun j _ hlt => (hal.cntOther j (Nat.ne_of_lt hlt)).trans (hbm.cnt j), hal.keep, fun _ => h2⟩)
           · cases he
         · rintro e m2 hq
           rcases hq with ⟨he, _⟩ | ⟨he, hs2⟩
